@@ -310,6 +310,7 @@ func runC11(seed int64, n int, tier string, outDir string) (*Report, error) {
 		"  | _ => false end.\n"
 	cwB := NewCaseWriter(outDir, "Cases_C11_bytes", hdrB, "item * (N * N)")
 	cwB.SetChunk(25, 1)
+	cwG := c11GobWriter(outDir) // b43: GobEncode after Clean against the gob encoder model (c11gob.go)
 
 	eval := func(x ap.Item, idx int, label string, toCoq bool) {
 		before := CoqItem(x)
@@ -378,6 +379,7 @@ func runC11(seed int64, n int, tier string, outDir string) (*Report, error) {
 				}
 			}
 		}
+		c11GobEval(rep, cwG, x, before, in, idx, toCoq, label, seed, len(leaksB) > 0)
 		if idx < 2 {
 			rep.Sample(map[string]any{"x": before, "after": CoqItem(x), "reachable_before": leaksB})
 		}
@@ -443,5 +445,6 @@ func runC11(seed int64, n int, tier string, outDir string) (*Report, error) {
 	rep.CaseFiles = []string{p, pB}
 	rep.CoqCases = cw.total + cwB.total
 	rep.Notes = append(rep.Notes, fmt.Sprintf("lists of the written document that could not be paired member by member with the value (not judged): %d", c11Unpaired))
+	rep.Notes = append(rep.Notes, fmt.Sprintf("gob: lists of the written property maps that could not be paired member by member with the value (not judged): %d", c11GobUnpaired))
 	return rep, nil
 }
